@@ -146,6 +146,7 @@ def bounded(tier, seed):
         typ = {'A': t1, 'B': t2, 'S': t1, 'M': t2}
         addr = {'A': (0x93, 3, 1), 'B': (0x93, 3, 2)}
         for step in range(steps):
+            sim.WIRE = (step % 2 == 1)      # every other request travels as bytes through the real parser (reference encoder -> parse -> request -> reply parse)
             name = rng.choice(['A', 'B', 'S', 'M'])
             n = len(model[name])
             T = typ[name]
@@ -221,6 +222,7 @@ def bounded(tier, seed):
                 model = dict((k, list(v)) for k, v in actual.items())
     # symbol table: k auto-allocated tags keep k distinct attributes (no aliasing), names are case-insensitive
     # in ISO-8859-1 and otherwise distinct
+    sim.WIRE = False
     for k in (1, 2, 9, 10, 11, 12, 15) if tier == 'quick' else range(1, 40):
         if len(violations) >= 5:
             break
@@ -262,7 +264,7 @@ def bounded(tier, seed):
                                            observed='status %r data %r' % (d.status, d.get('read_tag.data')),
                                            required='names equal up to ISO-8859-1 case denote one tag, all others are distinct tags'))
     return dict(evaluations=ev, distinct_nontrivial=len(distinct), distinct_keys=distinct_keys(distinct),
-                rule='seeded request histories (%d steps per type pair) over 4 tags: two bound to @0x93/3/1 and @0x93/3/2 (one instance), a scalar '
+                rule='seeded request histories (%d steps per type pair; every other request travels as bytes: reference encoder -> real parser -> request -> real parser of the reply) over 4 tags: two bound to @0x93/3/1 and @0x93/3/2 (one instance), a scalar '
                      'and a Message-Router allocated array; all 11 numeric element types; Read/Write Tag by symbolic name (also lower-case) and by '
                      'numeric address, Read/Write Tag Fragmented, Get/Set Attribute Single; after each request every tag is compared with an '
                      'independent array model; plus k = 1..15 Message-Router allocated tags read back individually, and tag names over an ISO-8859-1 alphabet grouped by case folding; distinct = distinct (operation, type, index, count, tag) / (k, i) / name' % steps,
